@@ -38,8 +38,10 @@ def legal_c16(T):
         # members must carry one and the same tag stack: no CHOICE with several alternatives as the element
         # type, however it is tagged
         b = U.base_of(T[1])
-        if b[0] == 'choice' and len(b[1]) > 1:
-            return False
+        while b[0] == 'choice':
+            if len(b[1]) > 1:
+                return False
+            b = U.base_of(b[1][0][1])
         return len(U.outer_tags(T[1])) == 1 and legal_c16(T[1])
     if k == 'seqof':
         return legal_c16(T[1])
